@@ -1,4 +1,6 @@
 """C08 - remap == bottom-up recursive rebuild; research paths retrievable with get_path."""
+import enum
+
 from hypothesis import strategies as st
 
 from vlib.core import Outcome, Sub, HarnessError, is_known
@@ -22,7 +24,19 @@ ASSUMPTIONS = [
 ]
 
 KNOWN_SET_PATH = 'c08.get_path-through-set'
-SCALARS = [0, 1, 2, -1, 'a', 'b', '', None, 1.5, b'x', True, 'key']
+class StrSub(str):
+    """a str subclass (markup-safe strings, path-like strings, enum mixins): a scalar leaf like any str"""
+
+
+class BytesSub(bytes):
+    pass
+
+
+class Color(str, enum.Enum):
+    RED = 'red'
+
+
+SCALARS = [0, 1, 2, -1, 'a', 'b', '', None, 1.5, b'x', True, 'key', StrSub('tag'), BytesSub(b'bt'), Color.RED, StrSub('')]
 
 
 def _call(f, *a, **kw):
@@ -75,6 +89,7 @@ def strat(tier):
                                                lambda t: t[0] + [t[1]] + t[2])),
         'patches': st.lists(st.tuples(st.sampled_from(['append', 'setitem']), _ref, _ref, _ref).map(list), max_size=2),
         'root': _ref,
+        'prior': st.sampled_from([None, None, None, 'unhashable_key', 'visit_raises', 'unhashable_member', 'enter_raises']),
         'visit': st.one_of(st.none(), st.none(),
                            st.lists(st.sampled_from(_ACTIONS), min_size=30, max_size=30),
                            st.lists(st.sampled_from(['keep', 'keep', 'keep', 'keep', 'drop', 'revalue']), min_size=30, max_size=30)),
@@ -382,6 +397,18 @@ def _follow(root, path):
     return kinds, cur
 
 
+def _raising_visit(path, key, value):
+    if value == (2, 3) or value == 4:
+        raise ValueError('visit refuses %r' % (value,))
+    return True
+
+
+def _raising_enter(path, key, value):
+    if isinstance(value, tuple):
+        raise RuntimeError('enter refuses tuples')
+    return iterutils.default_enter(path, key, value)
+
+
 def run(case):
     out = Outcome()
     root, patched = build(case)
@@ -395,6 +422,18 @@ def run(case):
     except TypeError as e:
         raise HarnessError('reference failed (unhashable rewrite?): %r' % (e,))
     rootdesc = _short(root)
+    prior = case.get('prior')
+    if prior:
+        # process history: an earlier remap() call that failed (its exception caught by the caller) must not influence this one
+        if prior == 'unhashable_key':
+            _call(remap, {'a': 1, 'b': [2]}, lambda p, k, v: ([k], v))
+        elif prior == 'visit_raises':
+            _call(remap, [1, {'x': (2, 3)}, {4}], _raising_visit)
+        elif prior == 'unhashable_member':
+            _call(remap, [{1, 2}, frozenset([3])], lambda p, k, v: (k, [v]) if isinstance(v, int) else (k, v))
+        elif prior == 'enter_raises':
+            _call(remap, {'k': [1, (2,)]}, enter=_raising_enter)
+        out.label('after_failed_call:' + prior)
     r = _call(remap, root, make_visit(table, log_real)) if table is not None else _call(remap, root)
     if snapshot(root) != before:
         return out.fail('c08.input-mutated', 'remap mutated its input %s' % rootdesc)
